@@ -45,13 +45,13 @@ ALL = [
     ('P6-vmerge-under-grid-gap', ['C13'], lambda: docx(tbl(tr('<w:trPr><w:gridBefore w:val="1"/></w:trPr>', tc(p(r('«1»a')))), tr(tc(p(r('«2»b'))), tc(p(), pr='<w:vMerge/>'))))),
     ('P7-vmerge-continue', ['C04', 'C19'], lambda: docx(tbl(tr(tc(p(r('«1»top')), pr='<w:vMerge w:val="restart"/>'), tc(p(r('«2»x')))), tr(tc(p(), pr='<w:vMerge w:val="continue"/>'), tc(p(r('«3»y'))))))),
     ('P8-tab-stops', ['C02'], lambda: docx(p(r('«1»toc entry'), '<w:r><w:tab/></w:r>', r('«2»7'), ppr='<w:tabs><w:tab w:val="right" w:leader="dot" w:pos="9350"/></w:tabs>'))),
-    ('P9-comment-in-heading', ['C12'], lambda: docx(p(r('plain')) + p('<w:commentRangeStart w:id="0"/>', r('commented'), '<w:commentRangeEnd w:id="0"/>', r(' tail'), ppr='<w:pStyle w:val="Heading1"/>'), comments=COM(0))),
+    ('P9-comment-in-heading', ['C12'], lambda: docx(p(r('«1»plain')) + p('<w:commentRangeStart w:id="0"/>', r('«2»commented'), '<w:commentRangeEnd w:id="0"/>', r('«3» tail'), ppr='<w:pStyle w:val="Heading1"/>'), comments=COM(0))),
     ('P10-switched-off', ['C07', 'C06'], lambda: docx(p(r('x&lt;y', '<w:b w:val="0"/><w:i w:val="false"/><w:vertAlign w:val="baseline"/><w:u w:val="none"/>'), r(' z', '<w:b/>')))),
-    ('P11-multi-format-link', ['C10', 'C07'], lambda: docx(p(r('see '), link('r:id="rId9"', r('bold', '<w:b/>'), r('plain')), r(' end')), docrels=LINK)),
+    ('P11-multi-format-link', ['C10', 'C07'], lambda: docx(p(r('«1»see '), link('r:id="rId9"', r('«2»bold', '<w:b/>'), r('«3»plain')), r('«4» end')), docrels=LINK)),
     ('P12-nested-table-lineage', ['C05', 'C19'], lambda: docx(p(r('«1»before')) + tbl(tr(tc(p(r('«2»A1')), tbl(tr(tc(p(r('«3»inner'))))), p(r('«4»A1-after'))), tc(p(r('«5»B1')))), tr(tc(p(r('«6»A2'))), tc(p(r('«7»B2'))))) + p(r('«8»after')))),
     ('P12b-sdt-in-cell-lineage', ['C05'], lambda: docx(tbl(tr(tc(p(r('«1»a')), '<w:sdt><w:sdtContent>' + p(r('«2»in sdt')) + '</w:sdtContent></w:sdt>', p(r('«3»b'))), tc(p(r('«4»c'))))))),
     ('P13-start-0', ['C08'], lambda: docx(LISTP('«1»x') + LISTP('«2»y') + LISTP('«3»z', 1), numbering=NUM0)),
-    ('P15-links-different-anchors', ['C10', 'C06'], lambda: docx(p(link('r:id="rId9" w:anchor="a"', r('x')), link('r:id="rId9" w:anchor="b"', r('y'))), docrels=LINK)),
+    ('P15-links-different-anchors', ['C10', 'C06'], lambda: docx(p(link('r:id="rId9" w:anchor="a"', r('«1»x')), link('r:id="rId9" w:anchor="b"', r('«2»y'))), docrels=LINK)),
     ('P16-word-word', ['C09'], lambda: docx(p(r('body')), docrels=[('rId2', 'header', 'word/h.xml')], extra={'word/word/h.xml': f'<w:hdr {NS}>' + p(r('head-in-word-word')) + '</w:hdr>'})),
     ('P18-range-end-without-start', ['C13', 'C12'], lambda: docx(p(r('a'), '<w:commentRangeEnd w:id="5"/>', r('b', '<w:b/>')))),
     ('P21-comment-ids-mismatch', ['C13', 'C12'], lambda: docx(p('<w:commentRangeStart w:id="0"/>', r('a'), '<w:commentRangeEnd w:id="0"/>'), comments=COM(7))),
@@ -61,6 +61,7 @@ ALL = [
     ('P26-comment-in-rels', ['C13', 'C18', 'C09'], lambda: _with(docx(p(r('«1»x'), link('r:id="rId9"', r('L'))), docrels=LINK), 'word/_rels/document.xml.rels', lambda s: s.replace(b'<Relationship ', b'<!-- c --><Relationship ', 1))),
     ('P27-comment-in-core', ['C18', 'C14'], lambda: docx(p(r('x')), root_rels=[('rId1', 'officeDocument', 'word/document.xml'), ('rId2', CORE_RT, 'docProps/core.xml')],
                                                  extra={'docProps/core.xml': '<cp:coreProperties xmlns:cp="http://schemas.openxmlformats.org/package/2006/metadata/core-properties" xmlns:dc="http://purl.org/dc/elements/1.1/"><!-- c --><dc:title>T</dc:title></cp:coreProperties>'})),
+    ('P17-part-related-twice', ['C16'], lambda: docx(p(r('«1»body')), docrels=[('rId2', 'header', 'h.xml'), ('rId3', 'header', 'h.xml')], extra={'word/h.xml': f'<w:hdr {NS}>' + p(r('«2»head')) + '</w:hdr>'})),
     ('plain-two-tables', ['C01', 'C02', 'C03', 'C05', 'C19', 'C13'], lambda: docx(p(r('«1»a')) + tbl(tr(tc(p(r('«2»b'))), tc(p(r('«3»c'))))) + p(r('«4»d')) + tbl(tr(tc(p(r('«5»e'))))))),
 ]
 
